@@ -28,7 +28,7 @@ fn strip_padding(v: &mut Value) -> Value {
     v.as_object_mut().and_then(|o| o.remove("padding")).unwrap_or(Value::Null)
 }
 
-fn c13_oracle(c: &PadCase, st: &mut Stats) -> Verdict {
+pub(crate) fn c13_oracle(c: &PadCase, st: &mut Stats) -> Verdict {
     let name = c.spec.long_name();
     st.label(&name);
     st.label(if c.from_builder { "base from the crate's builder" } else { "base from the reference encoder" });
@@ -206,7 +206,7 @@ fn check_rpsi(r: &Rpsi, fci: &[u8], st: &mut Stats) -> Verdict {
     Ok(())
 }
 
-fn c15_oracle(c: &FciCase, st: &mut Stats) -> Verdict {
+pub(crate) fn c15_oracle(c: &FciCase, st: &mut Stats) -> Verdict {
     let fci_in = &c.fci.0[..];
     if c.raw {
         st.label("raw F::parse");
@@ -412,3 +412,4 @@ pub fn c15(tier: Tier) -> Check {
         ],
     }
 }
+
